@@ -46,17 +46,29 @@ Proof.
   vm_compute. repeat split; try reflexivity. right; right; left. reflexivity.
 Qed.
 
-(* an inverted (non-absolute) interval yields values but none of them is `in` it *)
+(* an inverted (non-absolute) interval: the six values it yields, its own start and end among them, are all `in` it, the days next to its two
+   ends are not (before __contains__ put the ends in ascending order nothing at all was `in` an inverted interval) *)
 Definition d (n : Z) : dtv := mkdtv K_DATE (fixed_zone 0) false 0 (n * us_per_day) false.
-Lemma contains_inverted_refuted_l :
-  exists iv fuel, range_down iv = true /\ snd (py_range fuel iv U_days 1) = GDone /\ length (fst (py_range fuel iv U_days 1)) = 6%nat /\
-    forallb (fun x => negb (py_contains iv x)) (fst (py_range fuel iv U_days 1)) = true.
-Proof. exists (mk_interval (d 737460) (d 737455) false), 10%nat. vm_compute. repeat split; reflexivity. Qed.
+Lemma contains_inverted_witness_l :
+  let iv := mk_interval (d 737433) (d 737428) false in
+  range_down iv = true /\ snd (py_range 10 iv U_days 1) = GDone /\ length (fst (py_range 10 iv U_days 1)) = 6%nat /\
+  forallb (py_contains iv) (fst (py_range 10 iv U_days 1)) = true /\ py_contains iv (d 737434) = false /\ py_contains iv (d 737427) = false.
+Proof. vm_compute. repeat split; reflexivity. Qed.
 
-(* next to 9999-12-31 the generator raises instead of stopping: the value after the end is computed before it is compared *)
-Lemma range_raises_at_limit_refuted_l :
-  exists iv fuel, plain (iv_start iv) /\ py_range fuel iv U_days 1 = ([d 3652057; d 3652058], GRaise E_OverflowError).
-Proof. exists (mk_interval (d 3652057) (d 3652058) false), 10%nat. split; [left; reflexivity|vm_compute; reflexivity]. Qed.
+(* next to 9999-12-31 the generator stops after the last value: the value after the end (10000-01-01) cannot be computed, which ends the
+   iteration (before the repair the OverflowError escaped: ([d 3652057; d 3652058], GRaise E_OverflowError)); same next to 0001-01-01 going down,
+   where the year/month arithmetic raises ValueError *)
+Lemma range_at_limit_witness_l :
+  py_range 10 (mk_interval (d 3652057) (d 3652058) false) U_days 1 = ([d 3652057; d 3652058], GDone) /\
+  seq_at (mk_interval (d 3652057) (d 3652058) false) U_days 1 2 = Raise E_OverflowError /\
+  py_range 10 (mk_interval (d 31) (d 0) false) U_months 1 = ([d 31; d 0], GDone) /\
+  limit_exn E_OverflowError = true /\ limit_exn E_ValueError = true /\ limit_exn E_TypeError = false.
+Proof. vm_compute. repeat split; reflexivity. Qed.
+
+(* an exception that does not mean "out of range" still ends the run: Date.add has no `hours` *)
+Example range_type_error_escapes :
+  py_range 10 (mk_interval (d 737433) (d 737440) false) U_hours 1 = ([d 737433], GRaise E_TypeError).
+Proof. vm_compute. reflexivity. Qed.
 
 (* drift-free: a monthly range from 2020-01-31 yields 02-29, 03-31, 04-30, 05-31 (an accumulating start would stick to the 29th/30th) *)
 Example monthly_from_jan31 :
